@@ -4,6 +4,7 @@ import (
 	"fmt"
 	"os"
 	"go/ast"
+	"go/token"
 	"go/types"
 	"sort"
 	"strings"
@@ -1140,6 +1141,15 @@ func (fr *Frame) loopEnv(b *ssa.BasicBlock, li *loopInfo, st *State, phiVals map
 			vars["iter"] = &Val{T: mathInt, S: "(+ " + v.S + " 1)", Math: true}
 			if p.Comment == "rangeint.iter" {
 				vars["iter"] = &Val{T: mathInt, S: v.S, Math: true}
+				// "for i := range n": the counter is also known by its source name
+				for _, in2 := range b.Instrs {
+					if d, ok := in2.(*ssa.DebugRef); ok && d.X == ssa.Value(p) {
+						if id, ok := d.Expr.(*ast.Ident); ok {
+							vars[id.Name] = v
+							forced[id.Name] = true
+						}
+					}
+				}
 			}
 			continue
 		}
@@ -1180,6 +1190,20 @@ func (fr *Frame) loopEnv(b *ssa.BasicBlock, li *loopInfo, st *State, phiVals map
 	}
 	env.forced = forced
 	env.resolve = func(name string) *Val { return fr.resolveLocal(name, b, st) }
+	// visited(k): the ghost set of keys already produced by the map range this loop iterates
+	for bi := range li.blocks {
+		for _, ins := range fr.fn.Blocks[bi].Instrs {
+			if nx, ok := ins.(*ssa.Next); ok && !nx.IsString {
+				if rng, ok := nx.Iter.(*ssa.Range); ok {
+					if mt, ok := types.Unalias(rng.X.Type()).Underlying().(*types.Map); ok && rng.Block() != nil && !li.blocks[rng.Block().Index] {
+						vis := fr.visitedSet(rng, mt)
+						so := "(Array " + u.S.sortOf(mt.Key()) + " Bool)"
+						env.visited = func(k string) string { return sel(u.comp(env.cur, vis, so), k) }
+					}
+				}
+			}
+		}
+	}
 	return env
 }
 
@@ -1292,7 +1316,7 @@ func (fr *Frame) callSiteSpecs(b *ssa.BasicBlock, idx int, ins ssa.Instruction, 
 		name = cc.Method.Name()
 	} else if c := cc.StaticCallee(); c != nil {
 		name = siteName(ins)
-	} else {
+	} else if name = siteName(ins); name == "" {
 		return
 	}
 	n := fr.siteOrdinal(name, ins)
@@ -1414,6 +1438,25 @@ func siteName(ins ssa.Instruction) string {
 				n = n[:i] // instantiated generic: address it by its plain name
 			}
 			return n
+		}
+		return dynSiteName(cc.Value)
+	}
+	return ""
+}
+
+// dynSiteName names a call of a function value by the field it was read from (p.progress()), the only
+// dynamic calls contracts address.
+func dynSiteName(v ssa.Value) string {
+	if u, ok := v.(*ssa.UnOp); ok && u.Op == token.MUL {
+		if fa, ok := u.X.(*ssa.FieldAddr); ok {
+			if st, _, ok := derefStruct(fa.X.Type()); ok {
+				return st.Field(fa.Field).Name()
+			}
+		}
+	}
+	if f, ok := v.(*ssa.Field); ok {
+		if st, ok := f.X.Type().Underlying().(*types.Struct); ok {
+			return st.Field(f.Field).Name()
 		}
 	}
 	return ""
